@@ -1532,6 +1532,7 @@ func (interp *Interpreter) cfg(root *node, sc *scope, importPath, pkgName string
 			cond, body := n.child[0], n.child[1]
 			if !isBool(cond.typ) {
 				err = cond.cfgErrorf("non-bool used as for condition")
+				break
 			}
 			if cond.rval.IsValid() {
 				// Condition is known at compile time, bypass test.
@@ -1551,6 +1552,7 @@ func (interp *Interpreter) cfg(root *node, sc *scope, importPath, pkgName string
 			init, cond, body := n.child[0], n.child[1], n.child[2]
 			if !isBool(cond.typ) {
 				err = cond.cfgErrorf("non-bool used as for condition")
+				break
 			}
 			n.start = init.start
 			if cond.rval.IsValid() {
@@ -1580,6 +1582,7 @@ func (interp *Interpreter) cfg(root *node, sc *scope, importPath, pkgName string
 			cond, post, body := n.child[0], n.child[1], n.child[2]
 			if !isBool(cond.typ) {
 				err = cond.cfgErrorf("non-bool used as for condition")
+				break
 			}
 			if cond.rval.IsValid() {
 				// Condition is known at compile time, bypass test.
@@ -1608,6 +1611,7 @@ func (interp *Interpreter) cfg(root *node, sc *scope, importPath, pkgName string
 			init, cond, post, body := n.child[0], n.child[1], n.child[2], n.child[3]
 			if !isBool(cond.typ) {
 				err = cond.cfgErrorf("non-bool used as for condition")
+				break
 			}
 			n.start = init.start
 			body.start = body.child[0] // loopvar
@@ -1714,6 +1718,7 @@ func (interp *Interpreter) cfg(root *node, sc *scope, importPath, pkgName string
 			cond, tbody := n.child[0], n.child[1]
 			if !isBool(cond.typ) {
 				err = cond.cfgErrorf("non-bool used as if condition")
+				break
 			}
 			if cond.rval.IsValid() {
 				// Condition is known at compile time, bypass test.
@@ -1732,6 +1737,7 @@ func (interp *Interpreter) cfg(root *node, sc *scope, importPath, pkgName string
 			cond, tbody, fbody := n.child[0], n.child[1], n.child[2]
 			if !isBool(cond.typ) {
 				err = cond.cfgErrorf("non-bool used as if condition")
+				break
 			}
 			if cond.rval.IsValid() {
 				// Condition is known at compile time, bypass test and the useless branch.
@@ -1753,6 +1759,7 @@ func (interp *Interpreter) cfg(root *node, sc *scope, importPath, pkgName string
 			init, cond, tbody := n.child[0], n.child[1], n.child[2]
 			if !isBool(cond.typ) {
 				err = cond.cfgErrorf("non-bool used as if condition")
+				break
 			}
 			n.start = init.start
 			if cond.rval.IsValid() {
@@ -1774,6 +1781,7 @@ func (interp *Interpreter) cfg(root *node, sc *scope, importPath, pkgName string
 			init, cond, tbody, fbody := n.child[0], n.child[1], n.child[2], n.child[3]
 			if !isBool(cond.typ) {
 				err = cond.cfgErrorf("non-bool used as if condition")
+				break
 			}
 			n.start = init.start
 			if cond.rval.IsValid() {
